@@ -161,7 +161,7 @@ LLogin ==
           gc2 == IF pol.group THEN CacheAfter(i2, gcache, {"profile"}) ELSE gcache
       IN /\ idp' = i2
          /\ gcache' = gc2
-         /\ ck' = IF okg THEN Sess(TRUE, TRUE, LifeTTL, TokTTL, ValidTTL, NoGrace, "match", TRUE, "old") ELSE NoCookie
+         /\ ck' = IF okg THEN Sess(TRUE, TRUE, LifeTTL, TokTTL, ValidTTL, NoGrace, "match", TRUE, "old", "in") ELSE NoCookie
          /\ gh' = IF okg THEN FreshGhosts ELSE NoGhosts
          /\ lg' = ReGhost(lg, i2, gc2, pol)
          /\ last' = [ev |-> "login", ok |-> okg]
